@@ -1036,6 +1036,33 @@ func UseFrames(a, b int) int {
 	return vrt.V(%[7]d, s)
 }
 
+// an ordinary closure of a generator body that leaves / continues a NATIVE range loop; its
+// result type is an interface, so a jump turned into 'return <anything>' would still build
+func OptLookup(a, b int) «Iter[int]» {
+	table := []int{3, 0, a, 5, b}
+	lookup := func(key int) any {
+		var found any
+		for i, e := range table {
+			if e == 0 {
+				continue
+			}
+			if e == key {
+				found = i
+				break
+			}
+		}
+		return found
+	}
+	for _, k := range []int{a, b, 5, 9} {
+		if f, ok := lookup(k).(int); ok {
+			«Yield»(f)
+		} else {
+			«Yield»(-1)
+		}
+	}
+	return nil
+}
+
 func OptDelay(a, b int) (_ «Iter[int]») {
 	x := a
 	if b > 0 {
@@ -1055,10 +1082,32 @@ func OptDelay(a, b int) (_ «Iter[int]») {
 			«Yield»(x)
 		}
 	}
+	// a bare break / continue directly behind a yielding statement of a loop body
+	for x < 40 {
+		x += 3
+		for j := 0; j < 2; j++ {
+			«Yield»(x + j)
+		}
+		break
+	}
+	for i := 0; i < 3; i++ {
+		switch {
+		case i == b:
+			«Yield»(-i)
+		}
+		continue
+	}
+	for i := 0; i < 3; i++ {
+		if i != a {
+			«Yield»(i * 7)
+		}
+		break
+	}
 	return
 }
 `, tag(), tag(), k2, tag(), tag(), tag(), tag())
 	genRef := strings.NewReplacer(
+		"func OptLookup(a, b int) «Iter[int]» {\n", "func OptLookup(a, b int) «Iter[int]» {\n\treturn refco.Go(func(ʏ *refco.Y[int]) {\n",
 		"func optFrames(f frame, n int) «Iter[frame]» {\n", "func optFrames(f frame, n int) «Iter[frame]» {\n\treturn refco.Go(func(ʏ *refco.Y[frame]) {\n",
 		"func optArrs(p [2]int, n int) «Iter[[2]int]» {\n", "func optArrs(p [2]int, n int) «Iter[[2]int]» {\n\treturn refco.Go(func(ʏ *refco.Y[[2]int]) {\n",
 		"func genLevels(n int) «Iter[int]» {\n", "func genLevels(n int) «Iter[int]» {\n\treturn refco.Go(func(ʏ *refco.Y[int]) {\n",
@@ -1100,6 +1149,7 @@ func OptDelay(a, b int) (_ «Iter[int]») {
 		mk("OptPromotedPtr", true, "loop_condition_promoted_method_through_embedded_pointer"),
 		mk("OptPromotedNil", true, "loop_condition_promoted_method_nil_receiver"),
 		mk("OptPromotedNilClosure", true, "eta_shape_promoted_method_nil_receiver"),
+		mk("OptLookup", true, "plain_closure_in_generator_leaves_native_range_with_break_and_continue_result_type_any"),
 		mk("UseFrames", false, "yield_of_by_value_struct_and_array_parameters_written_through_fields"),
 	}
 	plain = []string{"// the only writer of pkgLevel2 (declared in a rewritten file) lives in this plain file\nfunc setLevel2(n int) { pkgLevel2 = n }\n"}
